@@ -228,6 +228,20 @@ func run07(c drv.Case, res *drv.Result) {
 			if r.Intn(8) == 0 {
 				src = few
 			}
+			if r.Intn(9) == 0 {
+				// the leftover of an interrupted upload (file lists, no descriptor) sits among the bundles: it is not a bundle
+				va := memstore.NewActor(fmt.Sprint("victim", i)).CrashWhen(func(c memstore.Call) bool { return strings.HasSuffix(c.Key, "/bundle.yaml") }, 1, false)
+				done := make(chan struct{})
+				go func() {
+					_, _ = env.Upload(va, "a", few.For(nil), coreh.UploadOpts{Concurrency: 1})
+					close(done)
+				}()
+				select {
+				case <-va.Dead():
+					res.Stat("leftovers_of_interrupted_uploads", 1)
+				case <-done:
+				}
+			}
 			id, err := env.Upload(nil, "a", src.For(nil), coreh.UploadOpts{Concurrency: 4})
 			must(err)
 			want = append(want, id)
